@@ -37,11 +37,21 @@ Tolerances / regime (calibration, R5):
    convergence-tolerance rule.  (Relative to the *net* charge it is not decidable on most of the lattice: net charges
    are 1e-7..1e-5 eq, the engine's criterion is 1e-13 eq absolute, and with the Borkovec-Westall integration the
    balance additionally carries the g-iteration error of about convergence_tolerance x moles of dissolved ions.)
- * (1) and (2) carry no tolerance in the statement either; 1e-8 relative is used and holds with a margin of 1e4.
+ * (1) and (2) carry no tolerance in the statement either; 1e-8 relative is used (observed worst: 3e-10 and 7e-14).
+   A surface whose related phase / kinetic reactant is exhausted (0 sites, 0 m2) is judged on (1) only.
  * A cancellation allowance of 64 ulp of the summed magnitudes is added where a value is a sum of signed terms.
  * not judged (R2): runs with rc != 0 / ERROR (zero-charge start with -donnan -only_counter_ions, kinetic integration
    failures at pH 11, ...); they are counted per model/mode, and a floor on the completed fraction guards vacuity.
  * mass action of species occupying more than one site (none on this lattice) is skipped (counted in ma_skipped).
+
+Calibration history (what the first version got wrong; all were defects of the check, none of the library):
+ * kinetic mode used a negative rate (precipitating FeOOH out of an iron-free solution): every such input ran into the
+   20 s case timeout (the engine does not return within 25 min) - a quarter of the lattice; now the reactant dissolves;
+ * the driver log was never reset, so every result carried the scripts of all earlier cases of its worker (quadratic);
+ * the CD-MUSIC plane-2 relation summed only the species of H, Na, Cl and the sorbate: dissolved Fe from the related
+   phase was missing (2e-8 relative); now every aqueous species (SYS("aq")) is read;
+ * 0.1 mmol P at I = 1e-4 cannot be charge balanced by Cl (264 initial solutions failed); now 0.02 mmol;
+ * relative 1e-8 against an absolute solver criterion: see "Tolerances" above.
 """
 import json
 import math
@@ -432,7 +442,7 @@ def judge(case, lay, o, tag, problems, diags, stats):
         def cmp(name, got, want):
             e = abs(got - want)
             r = R.rel(got, want)
-            stats[name] = max(stats.get(name, 0.0), r if e > slack + floor else 0.0)
+            stats[name] = max(stats.get(name, 0.0), r if (e > slack and TOL * max(abs(got), abs(want)) >= floor) else 0.0)
             stats[name + "_n"] = stats.get(name + "_n", 0) + 1
             if TOL * max(abs(got), abs(want)) < floor:
                 stats["undecidable_n"] = stats.get("undecidable_n", 0) + 1
@@ -467,7 +477,7 @@ def judge(case, lay, o, tag, problems, diags, stats):
             gross = qabs + chabs
             r = e / max(gross, 1e-300)
             sl = ULP * gross
-            stats["dl-balance"] = max(stats.get("dl-balance", 0.0), r if e > sl + floor else 0.0)
+            stats["dl-balance"] = max(stats.get("dl-balance", 0.0), r if (e > sl and TOL * gross >= floor) else 0.0)
             stats["dl-balance_n"] = stats.get("dl-balance_n", 0) + 1
             if len(dl["species"]) < 3:
                 raise RuntimeError("EDL_SPECIES returned %d species for an explicit diffuse layer" % len(dl["species"]))
@@ -584,8 +594,8 @@ def bounds(tier):
     else:
         d = dict(surf=surf, geom=[0, 1, 2], pH=PHS, I=IS, sorb=sorb, model=model, mode=MODES, T=[25.0], ctol=[CTOL])
         out.append(("25 C, three geometries", d))
-        d = dict(surf=surf, geom=[0], pH=PHS, I=IS, sorb=sorb, model=model, mode=MODES, T=[10.0, 60.0], ctol=[CTOL])
-        out.append(("10 C and 60 C, one geometry", d))
+        d = dict(surf=surf, geom=[0, 1], pH=PHS, I=IS, sorb=sorb, model=model, mode=MODES, T=[10.0, 60.0, 40.0], ctol=[CTOL])
+        out.append(("10, 40 and 60 C, two geometries", d))
         out.append(("default convergence tolerance (reported, not judged)",
                     dict(surf=surf, geom=[0], pH=PHS, I=IS, sorb=["none", "CaSO4"], model=model, mode=["equil", "kin"], T=[25.0], ctol=[1e-8], diag=[1])))
     return [(n, lattice(**d), d) for n, d in out]
